@@ -385,6 +385,12 @@ class LoopSim:
         r = self.r
         while True:
             c = r.random()
+            if c < 0.08 and not self.cooperative:
+                # the threaded driver's order: queued operations (possibly stop / close) are applied first, and the transport
+                # failure observed in the same iteration asks for a reconnect without recomputing the transition
+                self.user_op()
+                self.ask("cli.error kind=establish")
+                return "PendingReconnect"
             if c < 0.3 and not self.cooperative:
                 self.user_op()
             elif c < 0.4 and not self.cooperative:
@@ -419,6 +425,11 @@ class LoopSim:
                     c = 0.65
                 else:
                     c = 0.35 if steps % 2 else 0.65
+            if c < 0.04 and not self.cooperative:
+                # threaded order again: an operation and a transport failure in one iteration
+                self.user_op()
+                self.ask("cli.error kind=closed" if self.broker.connack_sent else "cli.error kind=establish")
+                return "PendingReconnect"
             if c < 0.2:
                 self.user_op()
             elif c < 0.45:
